@@ -49,7 +49,10 @@ fn main() {
             std::process::exit(2);
         });
         let r = match id.as_str() {
-            "C01" | "C02" => props::c01::replay(&v),
+            "C01" | "C02" | "C06" | "C07" | "C04" => props::c01::replay(&v),
+            "C03" => props::c03::replay(&v),
+            "C05" => props::c05::replay(&v),
+            "C09" | "C10" => props::c09::replay(&v),
             _ => Err(format!("no replay for {id}")),
         };
         match r {
@@ -85,6 +88,12 @@ fn main() {
     let code = match id.as_str() {
         "C01" => props::c01::run(&ctx, Fmt::F64),
         "C02" => props::c01::run(&ctx, Fmt::F32),
+        "C03" => props::c03::run(&ctx),
+        "C05" => props::c05::run(&ctx),
+        "C06" => props::c06::run(&ctx),
+        "C07" => props::c07::run(&ctx),
+        "C09" => props::c09::run(&ctx),
+        "C10" => props::c10::run(&ctx),
         _ => {
             eprintln!("unknown property {id}");
             2
